@@ -136,6 +136,11 @@ def _form_candidate_objects(cands: List[str],
 def _deindex_ballots(ballots: Dict[Tuple[int, ...], Number],
                      cands: List[Candidate]
                      ) -> Dict[Tuple[Candidate, ...], Number]:
+    for ballot in ballots:
+        for i in ballot:
+            if not 1 <= i <= len(cands):
+                raise BLTParseError(f'candidate number {i} out of range'
+                                    f' 1-{len(cands)} in ballot {ballot!r}')
     return {
         tuple(cands[i-1] for i in ballot): n_votes
         for ballot, n_votes in ballots.items()
